@@ -19,7 +19,8 @@ COMMON_WARN = ['-Wall', '-Wextra', '-Wno-unused-parameter', '-std=c99', '-Wpedan
 
 SAN = {
     'plain': (['gcc'], ['-O0', '-g']),
-    'asan': (['clang'], ['-O0', '-g', '-fno-omit-frame-pointer',
+    # -ftrivial-auto-var-init=pattern: uninitialised automatic storage holds 0xAA.., never a lucky zero - reads of it become deterministic
+    'asan': (['clang'], ['-O0', '-g', '-fno-omit-frame-pointer', '-ftrivial-auto-var-init=pattern',
                          '-fsanitize=address,undefined', '-fno-sanitize-recover=undefined']),
     'tsan': (['clang'], ['-O1', '-g', '-fno-omit-frame-pointer', '-fsanitize=thread']),
 }
